@@ -258,7 +258,31 @@ def _add_argument_calls(fi, p=None):
                             if isinstance(el, ast.Name) and el.id in parent_decl:
                                 for names, kw, line in parent_decl[el.id]:
                                     calls.append((own, names, kw, line))
+    # the parser may be built by a helper that returns it: `parser = build_parser()`
+    if p is not None:
+        for h in _parser_builders(fi, p):
+            c2, o2 = _add_argument_calls(h, p)
+            calls.extend(c2)
+            owner.update(o2)
     return calls, owner
+
+
+def _parser_builders(fi, p, _seen=None):
+    """module functions called from `fi` that construct an ArgumentParser and return it"""
+    seen = _seen if _seen is not None else {fi}
+    out = []
+    for n in ast.walk(fi.node):
+        if isinstance(n, ast.Call) and isinstance(n.func, ast.Name):
+            h = fi.module.functions.get(n.func.id)
+            if h is None or h in seen:
+                continue
+            builds = any(isinstance(m, ast.Call) and ast.unparse(m.func).endswith('ArgumentParser') for m in ast.walk(h.node))
+            returns = any(isinstance(r, ast.Return) and r.value is not None for r in ast.walk(h.node))
+            takes_parser = any(isinstance(a, ast.Name) for a in n.args)     # helper(parser): handled by the bind rule above
+            if builds and returns and not takes_parser:
+                seen.add(h)
+                out.append(h)
+    return out
 
 
 def _dest_levels(ob, calls, fpa, only=None):
@@ -472,9 +496,12 @@ def run(ctx):
                 st = rec['status']
                 # stopping before anything was emitted is one of the two outcomes the property allows, for any command -
                 # provided the status is non-zero (a string status is printed to stderr and means 1)
-                ob.require(T.is_const(st) and ((isinstance(st[1], int) and not isinstance(st[1], bool) and st[1] != 0)
-                                               or (isinstance(st[1], str) and st[1] != '')),
-                           'a run that stops without output (command %r) must stop with a non-zero status' % (cmd,), fmain.where,
+                nonzero = T.is_const(st) and ((isinstance(st[1], int) and not isinstance(st[1], bool) and st[1] != 0)
+                                              or (isinstance(st[1], str) and st[1] != ''))
+                if not nonzero and T.type_of(st) == 'str' and any(T.is_const(x) and isinstance(x[1], str) and x[1] != ''
+                                                                   for x in (st[2:] if T.is_op(st, 'CAT') else ())):
+                    nonzero = True      # a message with a non-empty constant part: printed to stderr, status 1
+                ob.require(nonzero, 'a run that stops without output (command %r) must stop with a non-zero status' % (cmd,), fmain.where,
                            found=T.show(st))
                 if cmd in CTORS:
                     refusals.append((cmd, rec))
@@ -529,8 +556,8 @@ def run(ctx):
             ob.note('arguments beyond the specified table (not judged): %s' % extra)
         ob.require(set(owner.values()) == set(CTORS), 'sub-commands are exactly the five wallet sources', fpa.where,
                    expected=sorted(CTORS), found=sorted(owner.values()))
-        sub = [n for n in ast.walk(fpa.node) if isinstance(n, ast.Call) and isinstance(n.func, ast.Attribute)
-               and n.func.attr == 'add_subparsers']
+        sub = [n for f_ in [fpa] + _parser_builders(fpa, p) for n in ast.walk(f_.node) if isinstance(n, ast.Call)
+               and isinstance(n.func, ast.Attribute) and n.func.attr == 'add_subparsers']
         ok = sub and any(k.arg == 'dest' and isinstance(k.value, ast.Constant) and k.value.value == 'command' for k in sub[0].keywords)
         ob.require(bool(ok), 'the chosen sub-command is stored in args.command', fpa.where)
         # every args.X read by main is a declared destination
